@@ -518,6 +518,185 @@ func (e *verifEnv) SetOutage(g *verifOutage, on bool) {
 	}
 }
 
+// ---- profile round trips (C15) ------------------------------------------------
+
+// verifValuesDiffer compares two values field-wise; time.Time by Equal, nil and
+// empty maps/slices alike.  Returns "" or the path of the first difference.
+func verifValuesDiffer(a, b reflect.Value, path string) string {
+	if a.IsValid() != b.IsValid() {
+		return path + ": validity"
+	}
+	if !a.IsValid() {
+		return ""
+	}
+	if a.Type() != b.Type() {
+		return path + ": type"
+	}
+	if ta, ok := a.Interface().(time.Time); ok && a.CanInterface() {
+		if !ta.Equal(b.Interface().(time.Time)) {
+			return fmt.Sprintf("%s: %v != %v", path, ta, b.Interface())
+		}
+		return ""
+	}
+	switch a.Kind() {
+	case reflect.Ptr, reflect.Interface:
+		if a.IsNil() || b.IsNil() {
+			if a.IsNil() != b.IsNil() {
+				return path + ": nil-ness"
+			}
+			return ""
+		}
+		return verifValuesDiffer(a.Elem(), b.Elem(), path)
+	case reflect.Struct:
+		if a.Type().String() == "x509.Certificate" {
+			ra, rb := a.FieldByName("Raw").Bytes(), b.FieldByName("Raw").Bytes()
+			if string(ra) != string(rb) {
+				return path + ".Raw"
+			}
+			return ""
+		}
+		if a.Type().String() == "big.Int" {
+			if fmt.Sprint(a.Addr().Interface()) != fmt.Sprint(b.Addr().Interface()) {
+				return path + ": big.Int"
+			}
+			return ""
+		}
+		for i := 0; i < a.NumField(); i++ {
+			if !a.Type().Field(i).IsExported() {
+				continue
+			}
+			if d := verifValuesDiffer(a.Field(i), b.Field(i), path+"."+a.Type().Field(i).Name); d != "" {
+				return d
+			}
+		}
+		return ""
+	case reflect.Map:
+		if a.Len() != b.Len() {
+			return fmt.Sprintf("%s: map len %d != %d", path, a.Len(), b.Len())
+		}
+		for _, k := range a.MapKeys() {
+			bv := b.MapIndex(k)
+			if !bv.IsValid() {
+				return fmt.Sprintf("%s[%v]: missing", path, k)
+			}
+			if d := verifValuesDiffer(a.MapIndex(k), bv, fmt.Sprintf("%s[%v]", path, k)); d != "" {
+				return d
+			}
+		}
+		return ""
+	case reflect.Slice, reflect.Array:
+		if a.Len() != b.Len() {
+			return fmt.Sprintf("%s: len %d != %d", path, a.Len(), b.Len())
+		}
+		for i := 0; i < a.Len(); i++ {
+			if d := verifValuesDiffer(a.Index(i), b.Index(i), fmt.Sprintf("%s[%d]", path, i)); d != "" {
+				return d
+			}
+		}
+		return ""
+	case reflect.Func, reflect.Chan:
+		return ""
+	default:
+		if a.CanInterface() && b.CanInterface() {
+			if !reflect.DeepEqual(a.Interface(), b.Interface()) {
+				return fmt.Sprintf("%s: %v != %v", path, a.Interface(), b.Interface())
+			}
+		}
+		return ""
+	}
+}
+
+// verifMutateProfile fills a stored profile (made by real enrolment flows) with
+// generated values in every field, saves it, and reads it back from the primary
+// store and (after the caller synchronised) from the cache.
+func (e *verifEnv) GenerateProfileFrom(src, dst string, rng interface{ Intn(int) int }) (*userProfile, error) {
+	p, ok, _, err := e.State.LoadUserProfile(src)
+	if err != nil || !ok {
+		return nil, fmt.Errorf("source profile %s: ok=%v err=%v", src, ok, err)
+	}
+	rb := func(n int) []byte {
+		b := make([]byte, n)
+		for i := range b {
+			b[i] = byte(rng.Intn(256))
+		}
+		return b
+	}
+	rs := func() string {
+		al := "abcXYZ 019-_/.é世"
+		r := []rune(al)
+		n := rng.Intn(12)
+		o := make([]rune, n)
+		for i := range o {
+			o[i] = r[rng.Intn(len(r))]
+		}
+		return string(o)
+	}
+	rt := func() time.Time {
+		return time.Unix(int64(rng.Intn(2000000000)), int64(rng.Intn(1000000000))).In([]*time.Location{time.UTC, time.Local, time.FixedZone("x", 3600*5+1800)}[rng.Intn(3)])
+	}
+	// duplicate the real registrations under generated indices / flags
+	var regs []*u2fAuthData
+	for _, r := range p.U2fAuthData {
+		regs = append(regs, r)
+	}
+	p.U2fAuthData = map[int64]*u2fAuthData{}
+	for i := 0; i < rng.Intn(4) && len(regs) > 0; i++ {
+		r := *regs[rng.Intn(len(regs))]
+		r.Name, r.Enabled, r.Counter, r.CreatedAt, r.CreatorAddr = rs(), rng.Intn(2) == 0, uint32(rng.Intn(1<<30)), rt(), rs()
+		p.U2fAuthData[int64(rng.Intn(1<<30))-int64(rng.Intn(3))] = &r
+	}
+	p.TOTPAuthData = map[int64]*totpAuthData{}
+	for i := 0; i < rng.Intn(4); i++ {
+		p.TOTPAuthData[int64(rng.Intn(1<<30))] = &totpAuthData{Enabled: rng.Intn(2) == 0, CreatedAt: rt(), Name: rs(),
+			EncryptedSecret: [][]byte{rb(rng.Intn(300)), rb(rng.Intn(5))}, TOTPType: rng.Intn(3), ValidatorAddr: rs()}
+	}
+	if rng.Intn(2) == 0 {
+		sec := [][]byte{rb(256)}
+		p.PendingTOTPSecret = &sec
+	} else {
+		p.PendingTOTPSecret = nil
+	}
+	p.LastSuccessfullTOTPCounter = int64(rng.Intn(1 << 30))
+	p.BootstrapOTP = bootstrapOTPData{ExpiresAt: rt(), Sha512Hash: rb(64)}
+	p.UserHasRegistered2ndFactor = rng.Intn(2) == 0
+	p.WebauthnData = map[int64]*webauthAuthData{}
+	for i := 0; i < rng.Intn(3); i++ {
+		w := &webauthAuthData{Enabled: rng.Intn(2) == 0, CreatedAt: rt(), Name: rs()}
+		w.Credential.ID, w.Credential.PublicKey, w.Credential.AttestationType = rb(32), rb(77), []string{"fido-u2f", "packed", "none"}[rng.Intn(3)]
+		w.Credential.Authenticator.AAGUID, w.Credential.Authenticator.SignCount, w.Credential.Authenticator.CloneWarning = rb(16), uint32(rng.Intn(1<<20)), rng.Intn(2) == 0
+		p.WebauthnData[int64(rng.Intn(1<<30))] = w
+	}
+	p.WebauthnID, p.DisplayName, p.Username = uint64(rng.Intn(1<<30))<<20, rs(), dst
+	if rng.Intn(2) == 0 && p.RegistrationChallenge != nil {
+		p.RegistrationChallenge.Timestamp = rt()
+	}
+	if err := e.State.SaveUserProfile(dst, p); err != nil {
+		return nil, err
+	}
+	return p, nil
+}
+
+// LoadProfileFrom reads a profile through the daemon's own loader, from the
+// primary store or (forced) from the offline cache.
+func (e *verifEnv) LoadProfileFrom(user string, cache bool) (*userProfile, bool, error) {
+	saved := e.State.remoteDBQueryTimeout
+	if cache {
+		e.State.remoteDBQueryTimeout = 0 // the daemon's own switch for "use the cache"
+	} else {
+		e.State.remoteDBQueryTimeout = 20 * time.Second
+	}
+	defer func() { e.State.remoteDBQueryTimeout = saved }()
+	p, ok, fromCache, err := e.State.LoadUserProfile(user)
+	if err == nil && fromCache != cache {
+		return nil, false, fmt.Errorf("asked cache=%v got fromCache=%v", cache, fromCache)
+	}
+	return p, ok, err
+}
+
+func verifProfilesDiffer(a, b *userProfile) string {
+	return verifValuesDiffer(reflect.ValueOf(a), reflect.ValueOf(b), "profile")
+}
+
 // CA certificates exactly as main() adds them to the TLS client pool.
 func (e *verifEnv) ClientCAPool() *x509.CertPool {
 	pool := x509.NewCertPool()
